@@ -48,7 +48,7 @@ const digestPkg = "github.com/mongodb-forks/digest"
 
 func ruleC20(c *Ctx, r *Report) {
 	an := c.anchors()
-	if !requireAnchors(r, an, "C20-anchor") {
+	if !requireAnchors(r, an, "C20-anchor", "redact") {
 		return
 	}
 	var seeds []ssa.Value
